@@ -159,6 +159,7 @@ Section PathStr.
               | r :: rest => (match pres_str r with Some sub_s => lit "(" ++ sub_s ++ lit ")!==undefined||" | None => [] end)
                              ++ go_spread rest
               end in
+            (* positional: an item without a path leaves a hole *)
             let fix go_items (l : list pres) (next_comma : bool) : str :=
               match l with
               | [] => []
@@ -166,7 +167,7 @@ Section PathStr.
                   (if next_comma then lit "," else []) ++
                   match pres_str r with
                   | Some s => s ++ go_items rest true
-                  | None => go_items rest next_comma
+                  | None => go_items rest true
                   end
               end in
             go_spread spread ++ lit "Q.a([" ++ go_items items false ++ lit "])"
